@@ -1,21 +1,57 @@
 -------------------------------- MODULE Trace_MatrixSpace --------------------------------
 (* contract validation of recorded calls (code -> spec):
      basis : get_matrix_orthogonal_basis on generators of a structure class: label, dim(basis) = exact dimension of the span,
-             dim(basis) + dim(complement) = ambient dimension  (the exact numbers are recomputed here from the generators)
+             dim(basis) + dim(complement) = ambient dimension  (the exact numbers are recomputed here from the generators);
+             the returned basis has one common norm and is mutually orthogonal, the complement is orthogonal to it, and every
+             generator is reproduced by its projection onto the basis (with dim = exact rank this makes the spans equal)
      cert  : a rank certificate asked about a subspace with a planted element of rank < r: the positive answer is forbidden *)
 EXTENDS MatrixSpace, TLC, Json, IOUtils
 Events == JsonDeserialize(IOEnv.TRACE_FILE)
 VARIABLE l
 LabelOfE(e) == Label(\E k \in 1..Len(e.gens) : ~IsReal(e.gens[k]), e.field, \A k \in 1..Len(e.gens) : IsSym(e.gens[k]), \A k \in 1..Len(e.gens) : IsHerm(e.gens[k]))
+\* ---- the returned frames, rounded to integers at scale e.scale (Gaussian integers <<re, im>>).  Inner product of the
+\*      structured space: Tr(A^dagger B) over C, its real part over R.  All comparisons carry the rounding tolerance e.tol.
+IP(A, B) == GSum([k \in 1..Len(A) |-> GMul(GConj(A[k]), B[k])])
+IPf(lb, A, B) == IF OverReals(lb) THEN <<IP(A, B)[1], 0>> ELSE IP(A, B)
+Small(z, tol) == IAbs(z[1]) <= tol /\ IAbs(z[2]) <= tol
+AddScaled(acc, co, B) == TLCEval([k \in 1..Len(acc) |-> GAdd(acc[k], GMul(co, B[k]))])
+FrameOK2(e, lb, Bs, Cs) == \E c \in {IF Bs = <<>> THEN 0 ELSE IP(Bs[1], Bs[1])[1]} :
+   /\ \A i \in 1..Len(Bs) : IAbs(IP(Bs[i], Bs[i])[1] - c) <= e.tol /\ 4 * c >= e.scale * e.scale       \* one common, non-zero norm
+   /\ \A i, j \in 1..Len(Bs) : i < j => Small(IPf(lb, Bs[i], Bs[j]), e.tol)                            \* mutually orthogonal
+   /\ \A i \in 1..Len(Cs) : \A j \in 1..Len(Bs) : Small(IPf(lb, Cs[i], Bs[j]), e.tol)                \* complement orthogonal to the basis
+   /\ \A g \in 1..Len(e.gens) : \E gv \in {Flatten(e.gens[g])} :                                       \* every generator lies in the span
+         \E proj \in {FoldLeft(LAMBDA acc, i : AddScaled(acc, TLCEval(IPf(lb, Bs[i], gv)), Bs[i]), [k \in 1..Len(gv) |-> GZero], [i \in 1..Len(Bs) |-> i])} :
+            \A k \in 1..Len(gv) : Small(GAdd(GScale(c, gv[k]), GNeg(proj[k])), e.rtol)
+\* For the classes "complex matrices over the reals" (R_c, R_cT) the library hands the frames back REALIFIED: an m x n complex
+\* matrix A is returned as the real 2m x 2n block matrix [[Re A, -Im A], [Im A, Re A]].  Blocked(M) checks that shape and
+\* Complexify(M) recovers A; every other class returns matrices of the generators' own shape.
+Realified(lb) == lb \in {"R_c", "R_cT"}
+Blocked(M, m, n) == /\ Len(M) = 2 * m /\ \A i \in 1..(2 * m) : Len(M[i]) = 2 * n
+                    /\ \A i \in 1..m : \A j \in 1..n : /\ M[i][j][2] = 0 /\ M[m + i][j][2] = 0 /\ M[i][n + j][2] = 0 /\ M[m + i][n + j][2] = 0
+                                                        /\ IAbs(M[m + i][n + j][1] - M[i][j][1]) <= 1 /\ IAbs(M[i][n + j][1] + M[m + i][j][1]) <= 1
+Complexify(M, m, n) == [i \in 1..m |-> [j \in 1..n |-> <<M[i][j][1], M[m + i][j][1]>>]]
+ShapeOK(M, lb, m, n) == IF Realified(lb) THEN Blocked(M, m, n) ELSE Len(M) = m /\ \A i \in 1..m : Len(M[i]) = n
+AsVec(M, lb, m, n) == Flatten(IF Realified(lb) THEN Complexify(M, m, n) ELSE M)
+FrameOK(e, lb) == \E m \in {Len(e.gens[1])} : \E n \in {Len(e.gens[1][1])} :
+   /\ Len(e.basis) = e.nbasis /\ Len(e.compl) = e.ncompl
+   /\ \A i \in 1..Len(e.basis) : ShapeOK(e.basis[i], lb, m, n)
+   /\ \A i \in 1..Len(e.compl) : ShapeOK(e.compl[i], lb, m, n)
+   /\ \E Bs \in {TLCEval([i \in 1..Len(e.basis) |-> AsVec(e.basis[i], lb, m, n)])} : \E Cs \in {TLCEval([i \in 1..Len(e.compl) |-> AsVec(e.compl[i], lb, m, n)])} : FrameOK2(e, lb, Bs, Cs)
 BasisOK(e) == \E lb \in {LabelOfE(e)} : \E dm \in {SpanDim(lb, e.gens)} :
    /\ e.label = lb /\ e.nbasis = dm /\ e.nbasis + e.ncompl = Ambient(lb, Len(e.gens[1]), Len(e.gens[1][1]))
+   /\ FrameOK(e, lb)
 \* planted: the event carries P and the hidden generators; TLC re-establishes the provenance before judging the verdict
 CertOK(e) == /\ MAdd(e.B[3], MScale(-1, e.B[2])) = e.P /\ MatRank(e.P) < e.r /\ SpanDim("C", e.B) = Len(e.B)
              /\ e.certified = FALSE
+\* name of the first failing clause (only evaluated for rejected events)
+Why(e) == IF e.op # "basis" THEN "certificate" ELSE
+   LET lb == LabelOfE(e) IN
+   IF e.label # lb THEN "label" ELSE IF e.nbasis # SpanDim(lb, e.gens) THEN "dimension-of-span"
+   ELSE IF e.nbasis + e.ncompl # Ambient(lb, Len(e.gens[1]), Len(e.gens[1][1])) THEN "complement-dimension" ELSE "frame (norm / orthogonality / complement / span)"
 Valid(e) == CASE e.op = "basis" -> BasisOK(e) [] e.op = "cert" -> CertOK(e) [] OTHER -> FALSE
 Init == l = 1 /\ TLCSet(1, 0)
 Next == /\ l <= Len(Events)
-        /\ IF Valid(Events[l]) THEN TLCSet(1, TLCGet(1) + 1) ELSE PrintT(<<"REJECT", l, Events[l].op>>)
+        /\ IF Valid(Events[l]) THEN TLCSet(1, TLCGet(1) + 1) ELSE PrintT(<<"REJECT", l, Events[l].op, Why(Events[l])>>)
         /\ l' = l + 1
 Spec == Init /\ [][Next]_l
 Post == PrintT(<<"ACCEPTED", TLCGet(1), Len(Events)>>)
